@@ -431,6 +431,7 @@ fn wire_ops(c: &mut Ctx) {
 
 pub fn run(tier: Tier) -> i32 {
     let mut rep = Reporter::new("C16", tier, "exploration");
+    rep.start_unchecked_flavour();
     DENSE.store(tier == Tier::Thorough, std::sync::atomic::Ordering::Relaxed);
     let mut c = Ctx { sat_side: None, viol: vec![], evals: 0, representable: 0 };
     pure_ops(&mut c);
